@@ -178,8 +178,7 @@ def minInt64 : Int := -(2 ^ 63)
 
   `Val.ok v`: the shape of `v` is the one its type prescribes (what `Value.Validate` and the
   decoders guarantee: numbers in the range of their class, ips of 4 or 16 bytes, array and set
-  elements of the element type) and no type occurring in `v` (including type *values*) nests a
-  named type directly in a named type (`Ty.nnn`, the guard of C05's `compareTypes_*_partial`). -/
+  elements of the element type). -/
 
 def numOk (id : Nat) : Num → Bool
   | .int i => isSignedId id && decide (minInt64 ≤ i) && decide (i ≤ maxInt64)
@@ -191,22 +190,22 @@ def specialPrim (id : Nat) : Bool :=
 
 mutual
 def Val.ok : Val → Bool
-  | .null t => t.nnn
+  | .null _ => true
   | .num t n =>
-    t.nnn && match t.primId? with
-      | some id => isNumberId id && numOk id n
-      | none => false
-  | .bool t _ => t.nnn && t.primId? == some idBool
-  | .bytes t _ => t.nnn && t.primId? == some idBytes
-  | .string t _ => t.nnn && t.primId? == some idString
-  | .ip t bs => t.nnn && t.primId? == some idIP && (bs.length == 4 || bs.length == 16)
-  | .typ t x => t.nnn && t.primId? == some idType && x.nnn
+    match t.primId? with
+    | some id => isNumberId id && numOk id n
+    | none => false
+  | .bool t _ => t.primId? == some idBool
+  | .bytes t _ => t.primId? == some idBytes
+  | .string t _ => t.primId? == some idString
+  | .ip t bs => t.primId? == some idIP && (bs.length == 4 || bs.length == 16)
+  | .typ t _ => t.primId? == some idType
   | .seq t es =>
-    t.nnn && match t.inner? with
-      | some e => es.okAll e
-      | none => false
+    match t.inner? with
+    | some e => es.okAll e
+    | none => false
   | .raw t _ =>
-    t.nnn && t.inner?.isNone && match t.primId? with
+    t.inner?.isNone && match t.primId? with
       | some id => !isNumberId id && !specialPrim id
       | none => true
 def Vals.okAll : Vals → Ty → Bool
